@@ -555,6 +555,13 @@ static void reg_sig(const char* name)
   X(s16, const char*, const char*, unsigned long)                                                                      \
   X(s17, bool, bool, long, bool)
 
+// the generated family (gen/sig_family.py from the covering walks of spec/Sig.tla)
+#ifdef GEN_SIGS
+#  include "sig_gen.inc"
+#else
+#  define GEN_SIGS_LIST(X)
+#endif
+
 int main(int argc, char** argv)
 {
   if (argc < 3 || !out.open(argv[1])) {
@@ -563,8 +570,10 @@ int main(int argc, char** argv)
   std::mt19937_64 rng(std::atoll(argv[2]));
 #define REG(name, ...) reg_sig<__VA_ARGS__>(#name);
   SIGS(REG)
+  GEN_SIGS_LIST(REG)
 #define REGCB(name, ...) reg_cb_sig<__VA_ARGS__>(#name);
   SIGS(REGCB)
+  GEN_SIGS_LIST(REGCB)
   static vm_library lib = { 1, g_exports };
   RS sandbox;
   sandbox.create_sandbox(&lib);
@@ -580,9 +589,11 @@ int main(int argc, char** argv)
   }
 #define RUN(name, ...) run_sig<__VA_ARGS__>(#name, rng);
   SIGS(RUN)
+  GEN_SIGS_LIST(RUN)
   cb.unregister();
 #define RUNCB(name, ...) run_cb_sig<__VA_ARGS__>(#name, rng);
   SIGS(RUNCB)
+  GEN_SIGS_LIST(RUNCB)
   sandbox.destroy_sandbox();
   out.close();
   return 0;
